@@ -280,6 +280,25 @@ func definitelyNonNilError(p *load.Program, v ssa.Value, depth int) bool {
 			}
 		}
 		return true
+	case *ssa.UnOp:
+		// a load of a place that was just stored to in the same block (w.err = &UsageError{...}; return w.err):
+		// the value stored, provided nothing in between can write memory
+		if x.Op != token.MUL || x.Block() == nil {
+			return false
+		}
+		want := ssau.Path(x.X)
+		instrs := x.Block().Instrs
+		for i := ssau.InstrIndex(x) - 1; i >= 0; i-- {
+			switch y := instrs[i].(type) {
+			case *ssa.Store:
+				if ssau.Path(y.Addr) == want {
+					return definitelyNonNilError(p, y.Val, depth+1)
+				}
+				return false
+			case ssa.CallInstruction:
+				return false
+			}
+		}
 	}
 	return false
 }
@@ -414,6 +433,27 @@ func ErrSwap(sc Scope, supp []suppression, min int) func(p *load.Program) *repor
 				epath := ssau.Path(e)
 				var how string
 				start := b.Succs[nonNilSucc]
+				// the error was already put where it is kept before it is tested
+				// (done, err := r.next(); r.err = err; if err != nil { return false })
+				recorded := false
+				if e.Referrers() != nil {
+					for _, ref := range *e.Referrers() {
+						st, ok := ref.(*ssa.Store)
+						if !ok || st.Val != e {
+							continue
+						}
+						if _, isField := st.Addr.(*ssa.FieldAddr); !isField {
+							continue
+						}
+						if st.Block() == b || st.Block().Dominates(b) {
+							recorded = true
+						}
+					}
+				}
+				if recorded {
+					r.Add(report.Obligation{Key: key, Func: name, Pos: instrPos(p, ifi), What: what, Status: report.Discharged, By: "stored into a field of the receiver before the test"})
+					continue
+				}
 				esc := walkSwap(p, fn, start, e, al, epath, ei, &how)
 				if esc == "" {
 					r.Add(report.Obligation{Key: key, Func: name, Pos: instrPos(p, ifi), What: what, Status: report.Discharged, By: how})
